@@ -188,7 +188,7 @@ func (dlv *Delivery) ValidateWithContext(ctx context.Context) error {
 	return tax.ValidateStructWithContext(ctx, dlv,
 		validation.Field(&dlv.Regime),
 		validation.Field(&dlv.Addons),
-		validation.Field(&dlv.Tags.List),
+		validation.Field(&dlv.Tags.List, validation.Each(validation.Required)),
 		validation.Field(&dlv.UUID),
 		validation.Field(&dlv.Type,
 			validation.Required,
